@@ -18,7 +18,7 @@ ORDINARY = (ValueError, TypeError, IndexError, KeyError, NotImplementedError, Ru
 # ------------------------------------------------------------------ generation (parent process)
 _WEIGHTS = [("cartesian", 2), ("argcomb", 2), ("field", 2), ("withfield", 2), ("rt", 5), ("ufunc", 3), ("filter", 3), ("num", 3),
             ("flatten", 5), ("localindex", 5), ("pad", 8), ("fillnone", 10), ("isnone", 8), ("mask", 7), ("singletons", 3), ("firsts", 3),
-            ("comb", 3), ("reduce", 6), ("sort", 4), ("concatperm", 3), ("concat0", 2), ("concat1", 3), ("zip", 3), ("unflatten", 3),
+            ("comb", 3), ("reduce", 6), ("sort", 4), ("concatperm", 3), ("concat0", 2), ("concat2", 5), ("concat1", 3), ("zip", 3), ("unflatten", 3),
             ("same", 2), ("maysame", 2)]
 _OPS = [name for name, w in _WEIGHTS for _ in range(w)]
 
@@ -61,6 +61,9 @@ def _rand_op(rng):
         return "same", {"o": rng.choice(["packed", "copy"])}
     if kind == "maysame":
         return "maysame", {"o": rng.choice(["to_regular", "from_regular"])}
+    if kind == "concat2":
+        other, _n = trmod._rand_layout(rng, rng.randint(0, 2), allow_union=False)
+        return "concat2", {"other": other}
     return kind, {}                     # singletons, firsts, concatperm, concat0, concat1, zip, unflatten
 
 
@@ -128,6 +131,8 @@ def _call(ak, np, op, a, A):
     if op in ("sort", "argsort"):
         f = ak.sort if op == "sort" else ak.argsort
         return f(A, axis=a["axis"], ascending=bool(a["asc"]), stable=bool(a["stable"]))
+    if op == "concat2":
+        return ak.concatenate([A, a["_B"]], axis=0)
     if op == "concatperm":
         keys = ak.fields(A)
         return ak.concatenate([A, A[keys[::-1]]], axis=0)
@@ -203,6 +208,15 @@ def h_chain(case, pick, st, stats):
             continue                                 # no such field anywhere in the type: a different question (KeyError)
         if op == "concatperm" and not (ty.startswith("{") and len(ak.fields(A)) >= 2):
             continue                                 # needs named records with two or more fields at the top
+        if op == "concat2":
+            try:
+                B = ak.Array(ext._box(_fix(json.loads(json.dumps(a.pop("other"))))))
+                if not ak.is_valid(B):
+                    continue
+                a["w"] = trmod._tag(ak.to_list(B))
+                a["_B"] = B
+            except (ValueError, TypeError):
+                continue
         if op == "mask":
             a["m"] = (a["m"] * 3)[:len(cur_list)]
         if op == "fillnone":
